@@ -123,6 +123,58 @@ def moved_into_helper(prog, body, site, table, anywhere):
     return ' / '.join(reasons)[:300]
 
 
+def _leaves_sans_calls(lv):
+    """operand leaves without the producer-call names (those depend on how much was inlined into the view)"""
+    return [lv[0]] + [[x[0], x[1], x[2], x[4]] if isinstance(x, list) and x and x[0] == 'val' and len(x) >= 5 else x for x in lv[1:]]
+
+
+def _same_inputs_entry(table, fn_nkey, lv2):
+    want = _leaves_sans_calls(lv2)
+    if not any(isinstance(x, list) and x and x[0] == 'val' and (x[1] or x[2]) for x in want[1:]):
+        return None
+    return next((e2 for k2, e2 in table.items() if k2.split('|', 1)[0] == fn_nkey and e2.get('leaves') and _leaves_sans_calls(e2['leaves']) == want), None)
+
+
+def helper_site_seen_from_callers(prog, body, site, table, anywhere):
+    """a site inside a private helper, looked up where the helper is used: in the inlined view of every (exactly resolved) caller, the same source location
+    carries a site of the same kind that is discharged there, or is a reviewed entry of the caller (same rendering, or same operation on the same inputs --
+    the locals of the helper may have other names than the ones the expression had in the caller)."""
+    if body.kind == 'Closure' or body.impl_trait or body.vis == 'pub':
+        return None
+    callers = []
+    for b2 in prog.crates[body.pkg].bodies:
+        for blk in b2.calls():
+            cands, exact = resolve_call(prog, b2, blk.term)
+            if exact and len(cands) == 1 and cands[0].key == body.key and b2.key != body.key:
+                callers.append(b2)
+    if not callers:
+        return None
+    where = site.loc()
+    reasons = []
+    for b2 in {c.key: c for c in callers}.values():
+        try:
+            inl = inlined_body(prog, b2)
+        except Exception:
+            return None
+        if not getattr(inl, 'inlined', 0):
+            return None
+        twins = [s2 for s2 in census.enumerate_sites(prog, inl) if s2.kind == site.kind and s2.loc() == where]
+        if not twins:
+            return None
+        for s2 in twins:
+            why = census.discharge(prog, inl, s2)
+            ent = None
+            if not why:
+                base2 = s2.key.rsplit('#', 1)[0]
+                ent = anywhere.get(base2) or next((e2 for k2, e2 in table.items() if k2.rsplit('#', 1)[0] == base2), None)
+            if not why and ent is None:
+                ent = _same_inputs_entry(table, b2.nkey, json.loads(json.dumps(census.site_leaves(inl, s2))))
+            if not why and ent is None:
+                return None
+            reasons.append('%s: %s' % (b2.name, why or ent['reason']))
+    return ' / '.join(reasons)[:300]
+
+
 def run_census(prog, rep, which, rule):
     """PANIC census for a scope; returns (scope, taint)"""
     roots = entry_points(prog, which)
@@ -187,13 +239,16 @@ def run_census(prog, rep, which, rule):
                             viainl = anywhere.get(base2) or next((e2 for k2, e2 in table.items() if k2.rsplit('#', 1)[0] == base2), None)
                             if viainl is None and census.discharge(prog, inl, s2):
                                 viainl = {'reason': 'discharged once the helper is inlined: ' + census.discharge(prog, inl, s2)}
+                            if viainl is None:
+                                # same operation on the same inputs as a reviewed site of this function (locals of the helper renamed)
+                                viainl = _same_inputs_entry(table, body.nkey, json.loads(json.dumps(census.site_leaves(inl, s2))))
             except Exception:
                 viainl = None
             if viainl is not None:
                 n_tab += 1
                 rep.ob(rule, True, key, 'reviewed (operand produced by a private helper; same site once inlined): ' + viainl['reason'], s.loc())
                 continue
-            moved = moved_into_helper(prog, body, s, table, anywhere)
+            moved = moved_into_helper(prog, body, s, table, anywhere) or helper_site_seen_from_callers(prog, body, s, table, anywhere)
             if moved:
                 n_tab += 1
                 rep.ob(rule, True, key, 'reviewed at the call sites (expression moved into a private helper): ' + moved, s.loc())
@@ -456,8 +511,11 @@ def run(prog, rep, tier):
                         for x_, y_ in ((e[2], e[3]), (e[3], e[2])):
                             if x_[0] == 'place' and (x_[1][0] in pay or (x_[1][0] == t.dest[0])) and y_[0] == 'const' and y_[1] in (0, 1):
                                 tested = True
-                elif si['kind'] == 'int' and si.get('place') is not None and (si['place'][0] in pay or si['place'][0] == t.dest[0]):
-                    tested = True     # `match n { 0 => .., _ => .. }`
+                elif si['kind'] == 'int' and 0 in si.get('arms', {}):
+                    # `match n { 0 => .., _ => .. }` / `match r { Ok(0) => .., Ok(n) => .., Err(e) => .. }`
+                    de = expr_of(body, si['discr']) if si.get('discr') is not None else ('unknown',)
+                    if de[0] == 'place' and (de[1][0] in pay or de[1][0] == t.dest[0]):
+                        tested = True
             key = 'R08.4|%s|read-in-loop#%d|zero-count-tested' % (body.nkey, cnt[body.nkey])
             cnt[body.nkey] += 1
             rep.ob('R08.4', tested, key, 'the count returned by read() inside the loop is compared with 0' if tested else
